@@ -2,7 +2,7 @@
 # usage: bin/confirm_seed.sh <ID>   -- independently confirms a seeded change produced in /tmp/seed-<ID> + /tmp/seed-out-<ID>:
 # (1) demo passes on the clean worktree, (2) with the patch the library builds and the pinned tests pass, (3) the demo fails.
 # On success copies patch.diff, demo files and meta.json to /verif/seeded/<ID>/ and records what was run.
-ID="$1"; WT=/tmp/seed-$ID; OUT=/tmp/seed-out-$ID; DST=/verif/seeded/$ID
+ID="$1"; WT=/tmp/seed-$ID; OUT=/tmp/seed-out-$ID; DST=/verif/seeded/$ID${2:+-$2}
 [ -f "$OUT/patch.diff" ] || { echo "no patch for $ID"; exit 2; }
 cd "$WT" || exit 2
 git checkout -q -- . ; git apply --check "$OUT/patch.diff" || { echo "patch does not apply"; exit 2; }
